@@ -197,7 +197,7 @@ var (
 )
 
 func validPackage() []byte {
-	return gz(writeTar(baseChartEnts(chartName+"/")[:3], func(s string) string { return s }, true))
+	return gz(writeTar(baseChartEnts(chartName + "/")[:3], func(s string) string { return s }, true))
 }
 
 func server() *httptest.Server {
